@@ -9,8 +9,18 @@ From Coq Require Import List Arith Bool Lia Ring Field.
 From OV Require Import Base.Panic Base.Arith Model.Complex gen.Params Model.Roots.
 Import ListNotations.
 
+(* everything of the model's arithmetic that the theorems leave arbitrary *)
+Record FieldOps (A : Arith) := {
+  f_sqrt : A -> A;              (* Complex::sqrt *)
+  f_pow : A -> A -> A;          (* Complex::pow *)
+  f_polar : A -> A -> A;        (* Complex::polar *)
+  f_mk : A -> A -> A;           (* Cmplx::new *)
+  f_conj : A -> A; f_re : A -> A; f_im : A -> A; f_abs : A -> A; f_rabs : A -> A;
+  f_rsqrt : A -> A;             (* f64::sqrt *)
+  f_max : A -> A -> A; f_eps : A; f_frac : list A }.
+
 Section Field.
-Context (A : Arith) (FL : FieldLaws A).
+Context (A : Arith) (FL : FieldLaws A) (O : FieldOps A).
 Notation inv := (fl_inv A FL).
 Local Open Scope arith_scope.
 
@@ -21,8 +31,11 @@ Add Field Afield : Aft.
 (* `n as f64`, and the literals 2. 3. 4. 9. 18. 27. : n times one *)
 Fixpoint natA (n : nat) : A := match n with 0 => zero | S k => natA k + one end.
 
-Variables (s : A -> A) (cb : A -> A -> A) (pol : A -> A -> A) (mk : A -> A -> A)
-          (cj re_ im_ ab rab rsq : A -> A) (mx : A -> A -> A) (eps : A) (fr : list A).
+Notation s := (f_sqrt A O). Notation cb := (f_pow A O). Notation pol := (f_polar A O).
+Notation mk := (f_mk A O). Notation cj := (f_conj A O). Notation re_ := (f_re A O).
+Notation im_ := (f_im A O). Notation ab := (f_abs A O). Notation rab := (f_rabs A O).
+Notation rsq := (f_rsqrt A O). Notation mx := (f_max A O). Notation eps := (f_eps A O).
+Notation fr := (f_frac A O).
 
 Definition FieldRA : RootArith := {|
   RR := {| SA := A; sqrt := rsq; of_nat := natA |};
